@@ -998,7 +998,7 @@ func c02SanityCases() []c02Sanity {
 }
 
 func runC02(replay string) int {
-	run := ev.NewRun("C02", "exploration")
+	run := ev.NewRun("C02", "model_checking")
 	worlds := map[string]*c02Ev{}
 	getEv := func(fl string) *c02Ev {
 		if worlds[fl] == nil {
